@@ -473,6 +473,10 @@ func fdCheck(w *world, out *sched.Outcome) (string, string) {
 }
 
 func runEngineCheck(t *testing.T, prop string, cfgs []sched.Config, names func(string) *sched.Config, boundsNote string) {
+	runEngineCheckExtra(t, prop, cfgs, names, boundsNote, nil)
+}
+
+func runEngineCheckExtra(t *testing.T, prop string, cfgs []sched.Config, names func(string) *sched.Config, boundsNote string, extra func(res *seqmc.Result)) {
 	if rp := seqmc.ReplayFile(); rp != "" {
 		v, err := sched.LoadViolation(rp)
 		if err != nil {
@@ -500,6 +504,9 @@ func runEngineCheck(t *testing.T, prop string, cfgs []sched.Config, names func(s
 			t.Fatal("vacuous: no scheduling points")
 		}
 		res.AddSched(st, vs)
+	}
+	if extra != nil {
+		extra(&res)
 	}
 	res.Exhaustive = len(res.Caps) == 0
 	res.Bounds = []string{boundsNote}
